@@ -597,7 +597,7 @@ def validate_nn_distances(nn_distances, optional=False):
         logger.error(message)
         raise ValueError(message)
 
-    min_positive = min(nn_distances[~bad_idx])
+    min_positive = arraymin(nn_distances[~bad_idx])
     nn_distances = where(~bad_idx, nn_distances, min_positive)
 
     if total_invalid > 0:
